@@ -158,7 +158,13 @@ class NF:
             env[t.value.id] = ast.Call(func=ast.Name(id="__with_%s__" % t.attr, ctx=ast.Load()), args=[env[t.value.id], val], keywords=[])
         elif isinstance(t, (ast.Tuple, ast.List)):
             for j, e in enumerate(t.elts):
-                self.assign(e, ast.Subscript(value=val, slice=ast.Constant(value=j), ctx=ast.Load()), env, frame)
+                if isinstance(val, (ast.Tuple, ast.List)) and len(val.elts) == len(t.elts) and not any(isinstance(x, ast.Starred) for x in val.elts):
+                    self.assign(e, val.elts[j], env, frame)
+                elif isinstance(val, ast.IfExp) and all(isinstance(a_, (ast.Tuple, ast.List)) and len(a_.elts) == len(t.elts)
+                                                        for a_ in (val.body, val.orelse)):
+                    self.assign(e, cond(val.test, val.body.elts[j], val.orelse.elts[j]), env, frame)
+                else:
+                    self.assign(e, ast.Subscript(value=val, slice=ast.Constant(value=j), ctx=ast.Load()), env, frame)
         elif isinstance(t, ast.Subscript):
             root = t.value
             while isinstance(root, (ast.Attribute, ast.Subscript)):
@@ -791,10 +797,11 @@ def expand(repo, cls, fn, defcls, expr):
     """``expr`` of method ``fn`` with private helper methods of the receiver inlined and the method's locals substituted"""
     selfname = astq.param_names(fn)[0] if astq.param_names(fn) else "self"
     frame = {"module": defcls.module, "defcls": defcls, "self": selfname, "depth": 0, "fn": fn}
+    v = astq.inline_locals(fn, expr)
     try:
-        v = NF(repo, cls).subst(expr, {}, frame)
+        v = NF(repo, cls).subst(v, {}, frame)
     except Undecided:
-        v = expr
+        pass
     v = astq.inline_locals(fn, v)
     return rename_self(v, selfname) if selfname != "self" else v
 
@@ -913,11 +920,43 @@ def check_alignment(ctx, repo):
     if len(rets) != 1 or rets[0].value is None:
         ctx.undecided("R4", tag, "expected a single return", loc)
         return
-    val = astq.inline_locals(fn, rets[0].value)
+    # private helper methods of the receiver are inlined and the locals substituted: the statement shape does not matter
+    val = expand(repo, cls, fn, cls, rets[0].value)
 
     def ext(e):
         s = repo.resolve_expr(mod, e)
         return s.dotted if s is not None else None
+
+    # equivalent shape: seasonal_[(off + arange(n)) % sp]  ==  resize(roll(seasonal_, -off), n)
+    def _unwrap(e_):
+        while True:
+            if isinstance(e_, ast.Call) and ext(e_.func) in ("numpy.asarray", "numpy.array", "numpy.asanyarray") and e_.args:
+                e_ = e_.args[0]
+            elif isinstance(e_, ast.Call) and isinstance(e_.func, ast.Attribute) and e_.func.attr == "to_numpy" and not e_.args:
+                e_ = e_.func.value
+            elif isinstance(e_, ast.Attribute) and e_.attr == "values":
+                e_ = e_.value
+            else:
+                return e_
+
+    gathered = None
+    if isinstance(val, ast.Subscript):
+        idx_ = val.slice
+        base_ = val.value.value if isinstance(val.value, ast.Attribute) and val.value.attr == "iloc" else val.value
+        if isinstance(idx_, ast.BinOp) and isinstance(idx_.op, ast.Mod) and isinstance(idx_.left, ast.BinOp) and isinstance(idx_.left.op, ast.Add):
+            parts_ = [idx_.left.left, idx_.left.right]
+            ar_ = [p_ for p_ in parts_ if isinstance(p_, ast.Call) and ext(p_.func) in ("numpy.arange", "builtins.range") and len(p_.args) == 1]
+            if len(ar_) == 1:
+                off_ = [p_ for p_ in parts_ if p_ is not ar_[0]][0]
+                gathered = (_unwrap(base_), off_, ar_[0].args[0], idx_.right)
+    if gathered is not None:
+        src_, off_, n_, mod_ = gathered
+        ctx.check(astq.canon(mod_) == "self.sp", "R4", tag + ":modulus", "positions are reduced modulo self.sp",
+                  "positions into seasonal_ are reduced modulo `%s`, not modulo the period self.sp" % ast.unparse(mod_), loc)
+        np_ = ast.Name(id="np", ctx=ast.Load())
+        val = ast.Call(func=ast.Attribute(value=np_, attr="resize", ctx=ast.Load()), keywords=[], args=[
+            ast.Call(func=ast.Attribute(value=np_, attr="roll", ctx=ast.Load()), keywords=[],
+                     args=[src_, ast.UnaryOp(op=ast.USub(), operand=off_)]), n_])
 
     def arg(call, pos, name):
         for k in call.keywords:
